@@ -5,6 +5,7 @@ A run is `World(cfg, plan, fates).run()`; cfg/plan/fates are plain JSON data, so
 """
 import hashlib
 import struct
+import logging
 import collections
 
 from simkit.kernel import Kernel, HarnessError
@@ -301,21 +302,44 @@ class ClientNode:
     # ---- ops
     def op_connect(self, op):
         w = self.w
-        if self.client is not None:
+        reuse = bool(op.get("reuse")) and self.client is not None
+        if reuse:
+            # the application keeps its UdpClient object across connection attempts: forceDisconnect(), connect() again.
+            # Everything configured on the object earlier (server key, timeouts, keep-alive) still has to apply
+            c = self.client
+            c.forceDisconnect()
+            self.sock = None
+            w.probe("udpclient_object_reused_for_reconnect")
+        elif self.client is not None:
             self.crash()
         self.inc += 1
         inc = self.inc
-        pub = w.root_pub if op.get("pinned", w.cfg["server"].get("pinned", True)) else None
-        c = client_mod.UdpClient(server_public_key=pub)
+        if not reuse:
+            pub = w.root_pub if op.get("pinned", w.cfg["server"].get("pinned", True)) else None
+            c = client_mod.UdpClient(server_public_key=pub)
+            self.pin = pub.getBytes() if pub is not None else None      # what the APPLICATION configured on this object
 
         def mk(addr, self=self):
             self.sock = SimSocket(w.net, self.addr, self.name, self.node, blocking=False)
+            p_unw = w.cfg.get("client_unwritable_p", 0.0)
+            if p_unw:
+                # select() now and then reports the socket as not writable (full send buffer): sendto on a UDP socket
+                # still works, and nothing the client has dequeued may be lost because of it
+                def unwritable(cn=self, ctr=[0]):
+                    ctr[0] += 1
+                    if khash(w.cfg["seed"], "unwritable", cn.name, cn.inc, ctr[0])[0] < p_unw:
+                        w.probe("client_socket_reported_not_writable")
+                        return True
+                    return False
+                self.sock.unwritable = unwritable
             return self.sock
         c._make_socket = mk
         self.client = c
         for which, value in op.get("pre", ()):
             self.call_setter(which, value)
         cc = self.cfg
+        if reuse:
+            cc = {}         # already configured on this object
         if cc.get("keep_alive") is not None and not op.get("no_cfg"):
             self.call_setter("keep_alive", cc["keep_alive"])
         if cc.get("conn_timeout") is not None and not op.get("no_cfg"):
@@ -331,11 +355,15 @@ class ClientNode:
                     for sop in op.get("on_connect", ()):      # the application sends right from its connect callback
                         w.probe("send_from_connect_callback")
                         w.app_send(self.name, self.client, sop)
+                if op.get("cb_raises"):
+                    w.probe("connect_callback_raised")
+                    raise AppError("application connect callback failed")
         self.connect_t = self.k.now
         c.connect(w.server_addr_for(self), callback=cb)
         w.name_conn(c.conn, "%s#%d" % (self.name, inc))
         w.client_conns.append(c.conn)
-        w.incarnations.append({"name": self.name, "inc": inc, "t": self.k.now, "conn": c.conn, "cb": bool(cb)})
+        w.incarnations.append({"name": self.name, "inc": inc, "t": self.k.now, "conn": c.conn, "cb": bool(cb), "pin": self.pin,
+                               "reused": reuse})
         for which, value in op.get("post", ()):
             self.call_setter(which, value)
         self.track_status()
@@ -385,6 +413,10 @@ class ClientNode:
     def op_clockstep(self, op):
         self.node.step += op["d"]
         self.w.probe("clock_step")
+
+
+class AppError(RuntimeError):
+    """Raised on purpose by a (simulated) buggy application callback; never a finding by itself."""
 
 
 class World:
@@ -450,6 +482,10 @@ class World:
         self.probes[name] += n
 
     def exc(self, who, where, e, op=None):
+        if isinstance(e, AppError):
+            self.probe("application_exception_surfaced_at_" + where.split(":")[0])
+            self.k.rec("appexc", who, where)
+            return          # the application's own exception came back to the application: not the library's fault
         self.excs.append({"t": round(self.k.now, 6), "who": who, "where": where, "type": type(e).__name__,
                           "msg": str(e)[:200], "op": {k: v for k, v in (op or {}).items() if k != "payload"}})
         self.k.rec("exc", who, where, type(e).__name__)
@@ -511,9 +547,15 @@ class World:
         self.sends.append(rec)
         cb = None
         if op.get("cb"):
+            raises = op.get("cb_raises")
+
             def cb(value, mid=mid):
                 self.cbs.append((k.now, mid, value))
                 k.rec("cb", mid, value)
+                if raises == "always" or (raises == "on_false" and not value) or (raises == "on_true" and value):
+                    # a buggy application callback: whatever it does is the application's problem, never the other sends'
+                    self.probe("send_callback_raised")
+                    raise AppError("application send callback failed")
         k.rec("send", who, len(payload), retry, api)
         try:
             if api == "send_guaranteed":
@@ -699,6 +741,11 @@ class World:
                 ctxt.setMessageTimeout(sc["msg_timeout"])
             if sc.get("blocklist"):
                 ctxt.setBlockList(set(sc["blocklist"]))
+            if sc.get("access_log"):
+                # enableAccessLogs() with the file handler replaced by a plain in-memory logger (no file I/O in the simulation)
+                self.seams._set(context_mod, "setupLogger", lambda name, path: logging.getLogger(name))
+                ctxt.enableAccessLogs("/simulated/access.log")
+                self.probe("access_log_enabled")
         # "settings made on the ServerContext before the server starts": both orders are legal - configure and then
         # construct the server object, or construct it first and configure before starting it
         late = bool(sc.get("configure_after_construction"))
